@@ -224,6 +224,10 @@ DEFAULT_SKIP_STUTTER = ("solvor/sat.py",)
 R50_ALLOWED: dict = {
     ("solvor/sat.py", "solve_sat", "clauses"): "the clause list may be normalised (duplicate literals merged, tautologies dropped): C02-O9 decides whether a normalisation of it keeps the models",
 }
+# signature required by a protocol: every repair operator takes (state, rng)
+R51_ALLOWED = {
+    ("solvor/vrp.py", "regret_insertion", "rng"): "repair operators share the signature (state, rng); regret insertion is deterministic",
+}
 R46_ALLOWED = {
     ("solvor/dlx.py", "solve_exact_cover", "max_solutions"): "max_solutions=0 and max_solutions=None both mean 'no limit on the number of covers'; the three tests are `max_solutions and len(solutions) >= max_solutions`",
 }
@@ -486,6 +490,30 @@ def generic_sweeps(ctx: Ctx, stutter: bool = True, skip_stutter_modules: tuple =
                     continue
                 n_rebound += 1
                 ctx.ob(g + "15", "R50 PROBLEM-DATA-PASSTHROUGH", f, f"collection parameter `{pname}` is rebound only to an element- and order-preserving copy of itself", False, f"`{ast.unparse(st).splitlines()[0][:90]}`: from here on the routine solves a filtered, deduplicated or re-ordered instance - entries the caller gave (a second row with a tighter bound, an isolated node, a zero-demand task, a self-loop) no longer take part in the answer", node=st)
+    # R51: an option the caller can set is read somewhere in the function (a parameter that is accepted and then
+    # ignored - `tol` no longer forwarded by a wrapper - silently answers for the default)
+    n_unread = 0
+    for m in mods:
+        for q in sorted(m.funcs):
+            f = m.funcs[q]
+            if f.parent is not None or f.node.name.startswith("_"):
+                continue
+            a_ = f.node.args
+            loads = {n_.id for n_ in ast.walk(f.node) if isinstance(n_, ast.Name) and isinstance(n_.ctx, ast.Load)}
+            body_ = [st_ for st_ in f.node.body if not (isinstance(st_, ast.Expr) and isinstance(st_.value, ast.Constant))]
+            if len(body_) == 1 and isinstance(body_[0], (ast.Pass, ast.Raise)):
+                continue
+            for x_ in a_.posonlyargs + a_.args + a_.kwonlyargs:
+                pname = x_.arg
+                if pname in ("self", "cls") or pname.startswith("_") or pname in loads:
+                    continue
+                key = (m.rel, f.qualname, pname)
+                if key in R51_ALLOWED:
+                    ctx.ob(g + "16", "R51 OPTION-READ", f, f"`{pname}` is never read", False, R51_ALLOWED[key], node=f.node, severity="note")
+                    continue
+                n_unread += 1
+                ctx.ob(g + "16", "R51 OPTION-READ", f, f"parameter `{pname}` is read somewhere in the function", False, "the caller's value has no effect: the routine answers for a default (a tolerance, a limit, a direction) the caller did not ask for", node=f.node)
+    ctx.ob(g + "16", "R51 OPTION-READ", None, "every parameter of the public functions of the anchor files is read", n_unread == 0, "", rel=mods[0].rel, fname="<anchor files>")
     ctx.ob(g + "15", "R50 PROBLEM-DATA-PASSTHROUGH", None, "no public function of the anchor files replaces a collection parameter by a filtered or rebuilt version of it", n_rebound == 0, "", rel=mods[0].rel, fname="<anchor files>")
     infrastructure(ctx, g + "7")
     validators_used(ctx, mods, g + "7")
